@@ -5,10 +5,8 @@ From Flocq Require Import Core.Raux.
 From Inferno Require Import Base.Num Base.NumR C19.Encoders C19.EncodersLists C19.EncodersPoisson C19.EncodersProofs.
 Import ListNotations.
 Open Scope R_scope.
-Theorem exp_online_once_per_refrac : forall (guard : nat -> bool) (steps : nat) (dt : T RN) (refrac : option (T RN))
-    (comp : bool) (inps draws0 : list (T RN)) (draws : list (list (T RN)))
-    (outs : list (list bool)) (raised : bool) (j a : nat),
-  exp_online_gen RN guard steps dt refrac comp inps draws0 draws = (outs, raised) ->
+Theorem exp_online_once_per_refrac : forall (steps : nat) (dt : R) (refrac : option R) (comp : bool) 
+    (inps draws0 : list (T RN)) (draws : list (list (T RN))) (j a : nat),
   length draws0 = length inps ->
   Forall nonneg draws0 ->
   Forall (Forall nonneg) draws ->
@@ -17,7 +15,8 @@ Theorem exp_online_once_per_refrac : forall (guard : nat -> bool) (steps : nat) 
   Forall (fun x : R => 0 <= x) inps ->
   (comp = true -> Forall (fun x : R => x * refrac_ms refrac dt <= 1000) inps) ->
   (count_true
-     (firstn (Z.to_nat (Zfloor (refrac_ms refrac dt / dt))) (skipn a (column false j outs))) <=
+     (firstn (Z.to_nat (Zfloor (refrac_ms refrac dt / dt)))
+        (skipn a (column false j (exp_online RN steps dt refrac comp inps draws0 draws)))) <=
    1)%nat.
 Proof. exact (@Inferno.C19.EncodersProofs.exp_online_once_per_refrac). Qed.
 Print Assumptions exp_online_once_per_refrac.
